@@ -15,9 +15,9 @@ m = {
   "add_only": True,
  },
  "engines": [
-  {"name": "vcheck", "path": "/verif/vcheck", "serves_properties": sorted(CHECKS),
+  {"name": "vcheck", "path": "/verif/vcheck", "serves_properties": sorted(READY),
    "kind_free_text": "Python driver: builds in-package rapid/fuzz test binaries from /repo's working tree through a go overlay, runs them (sharded by seed), merges their evidence records, applies known_findings.json"},
-  {"name": "vh", "path": "/verif/harness/vh", "serves_properties": sorted(CHECKS),
+  {"name": "vh", "path": "/verif/harness/vh", "serves_properties": sorted(READY),
    "kind_free_text": "Go helper: evidence recorder (class histogram, distinct non-trivial digests, samples), violation/replay files"},
  ],
  "checks": [],
@@ -25,7 +25,10 @@ m = {
  "notes": "All checks are property-based tests (pgregory.net/rapid v1.3.0), exhaustive enumerations of small finite sub-spaces through the same oracles, or native go fuzz targets with the oracle inside the target. See DESIGN.md.",
 }
 ALL = ["C%02d" % i for i in range(1, 21)]
+READY = set(open(os.path.join(os.path.dirname(os.path.abspath(__file__)), "READY")).read().split())
 for pid in sorted(CHECKS):
+    if pid not in READY:
+        continue
     c = CHECKS[pid]
     m["checks"].append({
         "property_id": pid,
@@ -39,7 +42,7 @@ for pid in sorted(CHECKS):
         "technique": c.get("technique", "property-based testing (rapid) against a reference model"),
     })
 for pid in ALL:
-    if pid not in CHECKS:
+    if pid not in CHECKS or pid not in READY:
         m["not_applicable"].append({"property_id": pid, "reason": "check not built yet (work in progress; planned in DESIGN.md §3)"})
 json.dump(m, open(os.path.join(os.path.dirname(os.path.abspath(__file__)), "MANIFEST.json"), "w"), indent=1)
 print("MANIFEST.json:", len(m["checks"]), "checks")
